@@ -51,7 +51,7 @@ impl Exec {
         let mut cx = Context::from_waker(&self.waker);
         Pin::new(fut).poll(&mut cx)
     }
-    pub fn poll_pinned<F: Future>(&mut self, fut: Pin<&mut F>) -> Poll<F::Output> {
+    pub fn poll_pinned<F: Future + ?Sized>(&mut self, fut: Pin<&mut F>) -> Poll<F::Output> {
         self.polls += 1;
         let mut cx = Context::from_waker(&self.waker);
         fut.poll(&mut cx)
